@@ -156,6 +156,28 @@ func regionAxiom(key string, v *Term, alloc, arrAlloc *Term) *Term {
 	return nil
 }
 
+// structElemsAxiom: slices held in the fields of struct values stored in slices are well-formed slices.
+func (x *Xlat) structElemsAxiom(key string, v *Term) *Term {
+	if !strings.HasPrefix(key, "Elems$St_") {
+		return nil
+	}
+	_, inner, ok := splitArrSort(v.Sort)
+	if !ok {
+		return nil
+	}
+	_, es, ok := splitArrSort(inner)
+	if !ok || x.ctx.dtByName[es] == nil {
+		return nil
+	}
+	a, i := Const("a!", SInt), Const("i!", SInt)
+	el := Sel(Sel(v, a), i)
+	f := x.structSliceFacts(el, 0)
+	if f.IsTrue() {
+		return nil
+	}
+	return Forall([]Bind{{"a!", SInt}, {"i!", SInt}}, f, []*Term{el})
+}
+
 func (x *Xlat) havocRegion(st *State, key string) {
 	cur, ok := st.env[key]
 	var s Sort
@@ -175,6 +197,9 @@ func (x *Xlat) havocRegion(st *State, key string) {
 	}
 	v := x.ctx.Fresh(key, s)
 	if ax := regionAxiom(key, v, x.get(st, allocKey, ArrSort(SRef, SBool)), x.get(st, arrAllocKey, ArrSort(SInt, SBool))); ax != nil {
+		x.ctx.constAxioms[v.Op] = append(x.ctx.constAxioms[v.Op], ax)
+	}
+	if ax := x.structElemsAxiom(key, v); ax != nil {
 		x.ctx.constAxioms[v.Op] = append(x.ctx.constAxioms[v.Op], ax)
 	}
 	if key == allocKey || key == arrAllocKey {
